@@ -273,6 +273,13 @@ class ProgramDB:
         for f in self.all_functions():
             if f.qualname == qualname:
                 return f
+        # a public function that moved to another module and is re-exported under its old import path (`from ._stats import binomial_ci`)
+        mod, _, name = qualname.rpartition(".")
+        m = self.modules.get(mod)
+        if m is not None:
+            r = self.resolve_name(m, name)
+            if isinstance(r, FunctionInfo):
+                return r
         raise AnalysisError("anchor vanished: function %s not found" % qualname)
 
     def cls(self, qualname):
